@@ -10,6 +10,9 @@ S->C  every call TLC enumerates (library function x literal argument tuple, only
       value of the call node, the type-variable solution handed back by resolve_bounds_map (recorded by
       wrapping -- not changing -- pyanalyze.signature.resolve_bounds_map in this process); and the call
       is really EXECUTED (case_i()) to get the value it returns.
+      Sessions (Calls.tla, "Sessions"): sequences of calls of the it_obj/it_int/it_str family are checked
+      together by a FRESH Checker each, because the protocol cache of TypeObject makes the verdict of one
+      call depend on the calls checked before it (known deviation protocol-cache-ignores-type-arguments).
 C->S  the recorded observations are adjudicated by TLC against spec/trace/CallsTrace.tla: oracle models
       (RefBinds, RefResult) = real CPython first, then the property on the real behaviour, then drift
       against the Impl model.
@@ -19,6 +22,7 @@ The driver only realises cases and records; every judgement is TLC's.
 from __future__ import annotations
 
 import ast
+import os
 import random
 from typing import Any, Optional
 
@@ -26,6 +30,9 @@ from .. import codec, core, pyz
 from .. import universe as U
 
 LEVEL = "model_checking"
+# set C06_MODEL_FIXES=1 when proposed/C06-fix-1.diff has been applied to /repo: the trace specification then
+# compares with the repaired model (otherwise the repaired behaviour would be reported as drift)
+TRACE_CFG = "CallsTrace.fixed.cfg" if os.environ.get("C06_MODEL_FIXES") else "CallsTrace.cfg"
 CHUNK = 250
 ACTIONS = ["ChooseFn", "AddPos", "AddKw", "Finish", "StartSess", "AddSessCall", "FinishSess"]
 # every path of check_call_with_bound_args (and of the oracle) must be seen on REAL observations
@@ -493,7 +500,7 @@ def _nontrivial(libdata_fns: dict, case: dict) -> bool:
 def judge(check: core.Check, libdata: dict, cases: list[dict], label: str,
           observations: Optional[list[dict]] = None) -> dict[str, int]:
     obs = observations if observations is not None else observe(libdata, cases)
-    verdicts, stats = core.adjudicate("CallsTrace", "CallsTrace.cfg", obs, batch=1500, parallel=8, timeout=3000)
+    verdicts, stats = core.adjudicate("CallsTrace", TRACE_CFG, obs, batch=1500, parallel=8, timeout=3000)
     check.add_trace_stats(stats)
     check.evals(len(obs))
     fns = {f["id"]: f for f in libdata["lib"]}
@@ -580,10 +587,13 @@ def run(check: core.Check) -> None:
     r = core.run_tlc("Calls", "Calls.strict.cfg", timeout=900)
     if r.violated != "InvSessDiagnosisStrict":
         raise core.MachineryError("sensitivity self-test failed: InvSessDiagnosisStrict unexpectedly holds on the model")
+    fixed = core.run_tlc("Calls", "Calls.fixed.cfg", timeout=900)
+    if not fixed.ok:
+        raise core.MachineryError(f"the model with the proposed repair does not satisfy the strict invariant: {fixed.error}")
     check.cov["sensitivity"] = (
         "model with *args left unchecked (Calls.sens1) and model ignoring TypeVar bounds/constraints (Calls.sens2) "
         "both violate InvDiagnosis; InvSessDiagnosisStrict (no deviation class) is violated: the protocol-cache "
-        "deviation is real on the model"
+        "deviation is real on the model; Calls.fixed.cfg (proposed repair on) satisfies it"
     )
     # 2. S->C: every TLC case through the real checker and real CPython, adjudicated by TLC
     ecfg = "Calls.emit.quick.cfg" if quick else "Calls.emit.thorough.cfg"
@@ -629,12 +639,12 @@ def selftest_binding(check: core.Check) -> None:
         {"fn": "ident", "shape": "plain", "pos": [{"c": "int", "v": "1", "items": []}], "kw": []},
     ]
     obs = observe(libdata, cases)
-    clean, _ = core.adjudicate("CallsTrace", "CallsTrace.cfg", obs)
+    clean, _ = core.adjudicate("CallsTrace", TRACE_CFG, obs)
     if clean:
         raise core.MachineryError(f"binding self-test: unexpected verdicts on clean observations: {clean}")
     obs[0]["nia"] = 0  # pretend the real checker did not diagnose f_int("a")
     obs[1]["inferred"] = {"k": "typed", "c": "str"}  # pretend it inferred str for ident(1)
-    bad, _ = core.adjudicate("CallsTrace", "CallsTrace.cfg", obs)
+    bad, _ = core.adjudicate("CallsTrace", TRACE_CFG, obs)
     if "viol:Diagnosis" not in bad.get(0, []) or "viol:ResultInInferred" not in bad.get(1, []):
         raise core.MachineryError(f"binding self-test: corrupted observations not flagged: {bad}")
     print(f"binding self-test ok: corrupted records flagged by TLC: {bad}")
